@@ -19,6 +19,29 @@ def corpus():
             "UNHEX xc3a9", "UNHEX x30e282ac", "UNHEX x2b", "UNHEX x2b2b"]
 
 
+_CONF = []
+
+
+def _confusables():
+    if not _CONF:
+        import re
+        import unicodedata
+        hexre = re.compile(r"^[0-9a-fA-F]+$")
+        for cp in range(0x80, 0x110000):
+            if 0xD800 <= cp <= 0xDFFF:
+                continue
+            ch = chr(cp)
+            nk = unicodedata.normalize("NFKC", ch)
+            forms = {ch.upper(), ch.lower(), ch.casefold(), nk, unicodedata.normalize("NFKD", ch), nk.upper(), nk.lower()}
+            try:
+                forms.add(str(unicodedata.digit(ch)))
+            except ValueError:
+                pass
+            if any(hexre.match(f) for f in forms):
+                _CONF.append(ch.encode("utf-8"))
+    return _CONF
+
+
 def cases(rng, tier):
     out = []
     for n in range(0, 3):
@@ -50,6 +73,15 @@ def cases(rng, tier):
         if tier != "quick" or cp % 8 == 0:
             out.append("UNHEX " + xhex(u + b"0a"))
             out.append("UNHEX " + xhex(b"0" + u + b"a"))
+    # every character that some case mapping, case folding, compatibility normalisation or digit-value lookup turns into hex digits
+    # (ligature U+FB00 -> "FF", fullwidth and other scripts' digits, superscripts, circled / mathematical letters a-f ..): none is a hex digit
+    for u in _confusables():
+        out.append("UNHEX " + xhex(u))
+        out.append("UNHEX " + xhex(u + u))
+        out.append("UNHEX " + xhex(u + b"0"))
+        out.append("UNHEX " + xhex(b"a" + u))
+        out.append("UNHEX " + xhex(u + b"0a"))
+        out.append("UNHEX " + xhex(b"a" + u + b"0"))
     if tier == "quick":
         for t in itertools.product(ALPHA_Q, repeat=4):
             out.append("UNHEX " + xhex(b"".join(t)))
